@@ -9,13 +9,15 @@ St(e) == [k |-> "set", e |-> e]
 M(a, b) == [k |-> "map", a |-> a, b |-> b]
 Tp(ts) == [k |-> "tuple", ts |-> ts]
 V(e, d) == [k |-> "vector", e |-> e, d |-> d]
+Ud(ns) == [k |-> "udt", fs |-> [i \in 1..Len(ns) |-> [n |-> ns[i], t |-> NT(IF ns[i] = "b" THEN "text" ELSE "int")]]]
 Some == {"int", "text", "bigint", "blob", "boolean", "uuid"}
 D1 == {NT(n) : n \in Natives} \cup {L(NT(n)) : n \in Natives} \cup {St(NT(n)) : n \in Natives} \cup {V(NT(n), 1) : n \in Natives}
       \cup {M(NT(a), NT(b)) : a \in {"int", "text", "uuid"}, b \in Some}
       \cup {Tp(<<NT("int"), NT("text")>>), Tp(<<NT("text"), NT("int")>>), Tp(<<NT("int")>>), Tp(<<NT("text")>>),
             Tp(<<NT("int"), NT("text"), NT("int")>>), Tp(<<NT("bigint"), NT("text")>>), Tp(<<NT("int"), NT("ascii")>>)}
-      \cup {[k |-> "udt", fs |-> <<[n |-> "a", t |-> NT("int")]>>]}
-D2 == {L(L(NT(n))) : n \in Some} \cup {L(St(NT("int"))), St(L(NT("int"))), L(V(NT("int"), 1)), V(L(NT("int")), 1)}
+      \cup {[k |-> "udt", fs |-> <<[n |-> "a", t |-> NT("int")]>>]} \cup {Ud(<<"a", "b">>), Ud(<<"b", "a">>), Ud(<<"a", "b", "c">>), Ud(<<"a", "x">>), Ud(<<"x", "b", "a">>),
+            [k |-> "udt", fs |-> <<[n |-> "a", t |-> NT("text")], [n |-> "b", t |-> NT("text")]>>]}
+D2 == {L(L(NT(n))) : n \in Some} \cup {L(Ud(<<"a", "b">>)), L(Ud(<<"a", "x">>)), St(Ud(<<"a", "b", "x">>))} \cup {L(St(NT("int"))), St(L(NT("int"))), L(V(NT("int"), 1)), V(L(NT("int")), 1)}
       \cup {L(Tp(<<NT("int"), NT("text")>>)), L(Tp(<<NT("text"), NT("int")>>)), L(Tp(<<NT("int"), NT("blob")>>)), St(Tp(<<NT("int"), NT("text")>>))}
       \cup {M(NT("text"), L(NT(n))) : n \in Some} \cup {M(NT("text"), St(NT("int"))), M(NT("int"), L(NT("int"))), M(NT("text"), M(NT("text"), NT("int")))}
 VARIABLE c
